@@ -213,4 +213,86 @@ def demo : Model Nat :=
 
 example : readAntenna 0 (writeAntenna demo ++ [[.lit "C"]]) = some (demo, [[.lit "C"]]) := by decide
 
+
+/-! ### the request part: currents, pattern block, near-field blocks, quit -/
+
+section Tail
+variable {N : Type} [DecidableEq N]
+
+
+/-- a far-field request in normal form: a dBi request carries no power level and the default distance -/
+def WFTail (dflt : N) (t : Tail N) : Prop :=
+  ∀ p, t.pat = some p → p.ffAbs = false → p.pwr = none ∧ p.dist = dflt
+
+theorem readNear_write (q : NearReq N) :
+    readNear (writeNearBlock "E" q ++ writeNearBlock "H" q ++ [[Tok.lit "Q"]]) = some (some q, [[Tok.lit "Q"]]) := by
+  obtain ⟨x, y, z, pw⟩ := q
+  cases pw <;> simp [writeNearBlock, rangeLine, readNear, readNearBlock, readRange, readPower]
+
+theorem readNear_none : readNear ([[Tok.lit "Q"]] : List (Line N)) = some (none, [[Tok.lit "Q"]]) := by
+  simp [readNear]
+
+theorem readPattern_write (dflt : N) (p : Pattern N) (h : p.ffAbs = false → p.pwr = none ∧ p.dist = dflt)
+    (rest : List (Line N)) :
+    readPattern dflt ((writePattern p).tail ++ rest) = some (p, rest) := by
+  obtain ⟨ffAbs, pwr, dist, zen, azi, g⟩ := p
+  cases ffAbs
+  · obtain ⟨h1, h2⟩ := h rfl
+    simp only at h1 h2
+    subst h1; subst h2
+    cases g <;> simp [writePattern, readPattern, readTriple, readGainfile]
+  · cases pwr <;> cases g <;> simp [writePattern, readPattern, readTriple, readGainfile, readPower]
+
+/-- **the request part of the generated input reads back**: currents, optional pattern block (dBi or V/m with an optional
+new power level and the distance), optional near-field blocks (electric and magnetic, the same ranges), quit -/
+theorem C18_tail_roundtrip (dflt : N) (t : Tail N) (h : WFTail dflt t) : readTail dflt (writeTail t) = some t := by
+  obtain ⟨pat, near⟩ := t
+  cases pat with
+  | none =>
+    cases near with
+    | none => simp [writeTail, readTail, readNear]
+    | some q =>
+      obtain ⟨x, y, z, pw⟩ := q
+      cases pw <;> simp [writeTail, writeNearBlock, rangeLine, readTail, readNear, readNearBlock, readRange, readPower]
+  | some p =>
+    have hp := h p rfl
+    obtain ⟨ffAbs, pwr, dist, zen, azi, g⟩ := p
+    cases ffAbs
+    · obtain ⟨h1, h2⟩ := hp rfl
+      simp only at h1 h2
+      subst h1; subst h2
+      cases near with
+      | none =>
+        cases g <;> simp [writeTail, writePattern, readTail, readPattern, readTriple, readGainfile, readNear]
+      | some q =>
+        obtain ⟨x, y, z, pw⟩ := q
+        cases g <;> cases pw <;>
+          simp [writeTail, writePattern, writeNearBlock, rangeLine, readTail, readPattern, readTriple, readGainfile, readNear,
+            readNearBlock, readRange, readPower]
+    · cases near with
+      | none =>
+        cases pwr <;> cases g <;>
+          simp [writeTail, writePattern, readTail, readPattern, readTriple, readGainfile, readPower, readNear]
+      | some q =>
+        obtain ⟨x, y, z, pw⟩ := q
+        cases pwr <;> cases g <;> cases pw <;>
+          simp [writeTail, writePattern, writeNearBlock, rangeLine, readTail, readPattern, readTriple, readGainfile, readNear,
+            readNearBlock, readRange, readPower]
+
+/-- without the normal form the request does not read back: a dBi request forgets a power level it was given -/
+theorem C18_tail_defect_witness :
+    readTail (0 : Nat) (writeTail ⟨some ⟨false, some 5, 7, (1, 2, 3), (4, 5, 6), none⟩, none⟩)
+      ≠ some ⟨some ⟨false, some 5, 7, (1, 2, 3), (4, 5, 6), none⟩, none⟩ := by
+  decide
+
+/-! non-vacuity: a V/m request with a new power level and a near-field request with another one -/
+example : WFTail (0 : Nat) ⟨some ⟨true, some 5, 7, (1, 2, 3), (4, 5, 6), some "g.out"⟩, some ⟨(1, 2, 3), (4, 5, 6), (7, 8, 9), some 2⟩⟩ := by
+  intro p hp hf
+  injection hp with hp
+  subst hp
+  cases hf
+
+
+end Tail
+
 end Pmn.Props.C18
